@@ -236,6 +236,13 @@ func c12Run[T any](seed uint64, tier string, gen func(r *simrt.Rand) T) (*Episod
 	}
 	nBad := r.Intn(4)
 	bare := kind >= qkDist && r.Chance(50)
+	// the consuming worker may have an id generator of its own: ids of stored entries are the
+	// producer's business, also the empty one
+	consumerGen := r.Chance(40)
+	if consumerGen && kind >= qkDist && nBad == 0 && len(subs) > 0 && len(subs[0]) > 0 {
+		// (not together with injected entries: a corrupted one may decode with an empty id too)
+		subs[0][0].id = ""
+	}
 	startPaused := r.Chance(40)
 	opts := simOptions(cfg, seed, numSites, nil, false)
 	sim := simrt.New(opts)
@@ -246,7 +253,11 @@ func c12Run[T any](seed uint64, tier string, gen func(r *simrt.Rand) T) (*Episod
 		fn := func(j Job[T]) {
 			cw.seen = append(cw.seen, c12Seen{Seq: wd.rec.stamp(), ID: j.ID(), Data: j.Data()})
 		}
-		w := NewWorker(fn, WithConcurrency(cfg.Conc))
+		wopts := []any{WithConcurrency(cfg.Conc)}
+		if consumerGen && kind >= qkDist {
+			wopts = append(wopts, WithJobIdGenerator(func() string { return "consumer-generated" }))
+		}
+		w := NewWorker(fn, wopts...)
 		wd.w = w
 		var add func(v T, prio int, id string) bool
 		switch kind {
